@@ -45,6 +45,20 @@ def variants(rng, fs):
             f["includes"] = f["includes"] + extra
             rng.shuffle(f["includes"])
         out.append(("include-order", D))
+    # the main file named after one of its interfaces in another letter case (the Rust backend folds
+    # file and interface names to lower case when it picks module files)
+    mainf = [f for f in fs["files"] if f["path"] == fs["main"]][0]
+    ifs = [d[1] for d in mainf["decls"] if d[0] == "iface"]
+    if ifs and rng.random() < 0.5:
+        nm = rng.choice(ifs)
+        stem = rng.choice([nm.lower(), nm.upper()])
+        if stem != nm and "/" not in fs["main"]:
+            E = copy.deepcopy(fs)
+            for f in E["files"]:
+                if f["path"] == E["main"]:
+                    f["path"] = stem + ".idl"
+            E["main"] = stem + ".idl"
+            out.append(("named-after-interface", E))
     return out
 
 
